@@ -7,7 +7,7 @@ set -u
 PROP=$1; D=$(realpath $2); NAME=$3; shift 3; CHECKS="$PROP $@"
 WT=/tmp/se_$NAME; OUT=/tmp/se_out/$NAME.txt; mkdir -p /tmp/se_out
 git -C /repo worktree remove --force $WT 2>/dev/null; rm -rf $WT
-git -C /repo worktree add -q --detach $WT HEAD || exit 2
+git -C /repo worktree add -q --detach $WT ${SEED_BASE:-HEAD} || exit 2
 {
 echo "== $NAME ($D)"
 PYTHONPATH=$WT PYTHONHASHSEED=0 timeout 1500 /venv/bin/python $D/demo.py > /tmp/se_out/$NAME.demo_clean.out 2>&1; echo "demo on clean tree: exit $?"
